@@ -175,7 +175,7 @@ mod verif_kani {
     // ---- inductive step harnesses: arbitrary well-formed state, ONE arbitrary operation, contract + invariant afterwards
     #[kani::proof]
     #[kani::unwind(6)]
-    fn dense_step() {
+    fn kdense_step() {
         let (mut s, mut model) = any_dense();
         dense_invariant(&s, &model);
         check_all(&s, &model);
@@ -186,7 +186,7 @@ mod verif_kani {
     /// the same step from every well-formed state with at most 2 elements over indices < 3 (fast enough for the quick tier)
     #[kani::proof]
     #[kani::unwind(6)]
-    fn dense_step_small() {
+    fn kdense_small() {
         let (mut s, mut model) = any_dense_b(2, 3);
         dense_invariant(&s, &model);
         let id: u32 = kani::any();
@@ -204,7 +204,7 @@ mod verif_kani {
 
     #[kani::proof]
     #[kani::unwind(6)]
-    fn dense_clean() {
+    fn kdense_clean() {
         let (mut s, model) = any_dense();
         unsafe { s.clean(mask_of(&model)) };
         assert!(s.data.len() == 0 && s.entity_id.len() == 0 && s.data_id.len() == 0);
@@ -212,7 +212,7 @@ mod verif_kani {
 
     #[kani::proof]
     #[kani::unwind(6)]
-    fn vec_step() {
+    fn kvec_step() {
         let (mut s, mut model) = any_vec();
         check_all(&s, &model);
         step(&mut s, &mut model);
@@ -228,7 +228,7 @@ mod verif_kani {
 
     #[kani::proof]
     #[kani::unwind(6)]
-    fn default_vec_step() {
+    fn kdefault_step() {
         let (mut s, mut model) = any_default_vec();
         check_all(&s, &model);
         step(&mut s, &mut model);
@@ -261,7 +261,7 @@ mod verif_kani {
 
     #[kani::proof]
     #[kani::unwind(6)]
-    fn vec_step_small() {
+    fn kvec_small() {
         let (mut s, mut model) = any_vec_b(2);
         step_small(&mut s, &mut model);
         unsafe { s.clean(mask_of(&model)) };
@@ -269,7 +269,7 @@ mod verif_kani {
 
     #[kani::proof]
     #[kani::unwind(6)]
-    fn default_vec_step_small() {
+    fn kdefault_small() {
         let (mut s, mut model) = any_default_vec_b(2);
         step_small(&mut s, &mut model);
         let sl = s.as_slice();
